@@ -10,16 +10,51 @@ Open Scope R_scope.
 Definition corr_r (N P Q T U W : R) : R :=
   (N * U - P * T) / (sqrt (N * Q - P * P) * sqrt (N * W - T * T)).
 
-Lemma correlation_formula xl yl P Q Rr S T U V W N :
+(* the quotient limited to [-1, 1], as the code returns it: max(-1.0, min(1.0, r)) *)
+Definition clampR (r : R) : R := Rmax (-1) (Rmin 1 r).
+
+Lemma clampR_range r : -1 <= clampR r <= 1.
+Proof.
+  unfold clampR. split; [apply Rmax_l |].
+  apply Rmax_lub; [lra | apply Rmin_l].
+Qed.
+Lemma clampR_id r : Rabs r <= 1 -> clampR r = r.
+Proof.
+  intro H. assert (-1 <= r <= 1) by (unfold Rabs in H; destruct (Rcase_abs r); lra). unfold clampR. rewrite Rmin_right by lra. apply Rmax_right; lra.
+Qed.
+
+(* for ANY stored sums with positive variances the returned value is the clamped quotient,
+   hence always inside [-1, 1] *)
+Lemma correlation_clamped xl yl P Q Rr S T U V W N :
   0 < IZR N * Q - P * P -> 0 < IZR N * W - T * T ->
   CurveFitting_correlation_coeff Rops (cfobj xl yl P Q Rr S T U V W N)
-  = VFloat (corr_r (IZR N) P Q T U W).
+  = VFloat (clampR (corr_r (IZR N) P Q T U W)).
 Proof.
   intros Hx Hy. unfold cfobj.
   assert (0 < sqrt (IZR N * Q - P * P)) by (apply sqrt_lt_R0; exact Hx).
   assert (0 < sqrt (IZR N * W - T * T)) by (apply sqrt_lt_R0; exact Hy).
   assert (sqrt (IZR N * Q - P * P) * sqrt (IZR N * W - T * T) <> 0) by (apply Rgt_not_eq; apply Rmult_lt_0_compat; assumption).
-  pyrun_using ltac:(first [assumption | pylra]). reflexivity.
+  unfold corr_r, clampR.
+  set (q := (IZR N * U - P * T) / (sqrt (IZR N * Q - P * P) * sqrt (IZR N * W - T * T))).
+  destruct (Rlt_dec q 1) as [Hq1 | Hq1].
+  - destruct (Rlt_dec (-1) q) as [Hq2 | Hq2].
+    + assert (Hu1 := Hq1); assert (Hu2 := Hq2); unfold q in Hu1, Hu2. pyrun_using ltac:(first [assumption | pylra]). fold q.
+      rewrite Rmin_right by lra. rewrite Rmax_right by lra. reflexivity.
+    + apply Rnot_lt_le in Hq2. assert (Hu1 := Hq1); assert (Hu2 := Hq2); unfold q in Hu1, Hu2. pyrun_using ltac:(first [assumption | pylra]). fold q.
+      rewrite Rmin_right by lra. rewrite Rmax_left by lra. Rlit_norm. f_equal. lra.
+  - apply Rnot_lt_le in Hq1. assert (Hu1 := Hq1); unfold q in Hu1. pyrun_using ltac:(first [assumption | pylra]). fold q.
+    rewrite Rmin_left by lra. rewrite Rmax_right by lra. Rlit_norm. f_equal. lra.
+Qed.
+
+(* when the quotient is within [-1, 1] (always the case for the sums of a data set, by
+   Cauchy-Schwarz: corr_bound below) the limitation is the identity *)
+Lemma correlation_formula xl yl P Q Rr S T U V W N :
+  0 < IZR N * Q - P * P -> 0 < IZR N * W - T * T ->
+  Rabs (corr_r (IZR N) P Q T U W) <= 1 ->
+  CurveFitting_correlation_coeff Rops (cfobj xl yl P Q Rr S T U V W N)
+  = VFloat (corr_r (IZR N) P Q T U W).
+Proof.
+  intros Hx Hy Hb. rewrite correlation_clamped by assumption. rewrite clampR_id by exact Hb. reflexivity.
 Qed.
 
 (* degenerate: a vanishing variance (all x equal, or all y equal) with the other one >= 0 *)
@@ -155,13 +190,15 @@ Proof.
   exists (corr_r (INR (length xs)) (Sx xs) (Sx2 xs) (Sx ys) (Sxy xs ys) (Sy2 ys)).
   unfold var_x, var_y in Hx, Hy.
   split; [| split].
-  - unfold cf_of. rewrite correlation_formula; rewrite ?IZR_len; [reflexivity | exact Hx | exact Hy].
+  - unfold cf_of. rewrite correlation_formula; rewrite ?IZR_len;
+      [reflexivity | exact Hx | exact Hy | apply corr_bound; assumption].
   - apply corr_bound; assumption.
   - unfold cf_of. rewrite Sx_opp, Sxy_opp, Sx2y_opp, Sy2_opp.
     rewrite correlation_formula; rewrite ?IZR_len.
     + rewrite corr_r_opp. reflexivity.
     + exact Hx.
     + replace (- Sx ys * - Sx ys) with (Sx ys * Sx ys) by ring. exact Hy.
+    + rewrite corr_r_opp, Rabs_Ropp. apply corr_bound; assumption.
 Qed.
 
 (* all abscissae equal: the variance vanishes exactly *)
@@ -190,6 +227,7 @@ Lemma correlation_of_data' xs ys : length xs = length ys -> 0 < var_x xs -> 0 < 
 Proof.
   intros Hl Hx Hy. destruct (correlation_of_data xs ys Hl Hx Hy) as (r & Hv & Hb & Hn).
   exists r. split; [exact Hv |]. split; [| split; assumption].
-  unfold cf_of in Hv. rewrite correlation_formula in Hv; rewrite ?IZR_len; try assumption.
+  unfold cf_of in Hv. rewrite correlation_formula in Hv; rewrite ?IZR_len; try assumption;
+    [| apply corr_bound; assumption].
   injection Hv as <-. rewrite IZR_len. reflexivity.
 Qed.
